@@ -167,6 +167,9 @@ class VarInt(Type):
 
     @staticmethod
     def send(value, socket):
+        if value < 0:
+            # The loop below only terminates for non-negative values.
+            raise ValueError("Cannot encode a negative value as a VarInt")
         out = bytes()
         while True:
             byte = value & 0x7F
